@@ -531,6 +531,19 @@ def packing(ctx):
                         byte_is_item = any(x[0] == 'field' and x[2] == '1' and x[1][0] == 'param' and x[1][2] == 3 for x in walk(sh[2]))
                         pos_is_index = any(x[0] == 'field' and x[2] == '0' and x[1][0] == 'param' and x[1][2] == 3 for x in walk(sh[3]))
                         step = ok_sh and byte_is_item and pos_is_index
+        # every value unpack_uint can return must be that accumulator (or the fold): an extra "fast path" is a second decoder that this
+        # rule has not verified (C01-m5: a masked word load that overflows at nbytes = 8)
+        extra = []
+        accs_ = [l for l in f.locals if f.local_ty(l) == 'u64' and f.locals[l].get('name')]
+        for p in explore(f, max_visits=1, havoc=True):
+            if p.end == 'return':
+                rv = p.ret()
+                while rv[0] == 'cast':
+                    rv = rv[1]
+                okr = (rv[0] in ('havoc', 'phi') and len(rv[1]) == 1 and rv[1][0] in accs_) or rv == ('const', 0) or is_call(rv, '::fold')
+                if not okr:
+                    extra.append(fmt(rv)[:60])
+        ctx.check(R, not extra, 'unpack_uint:single-decoder', 'unpack_uint has a returning path that is not the byte-wise accumulation: %s' % extra[:2], fn=f)
         ctx.check(R, step, 'unpack_uint:little-endian', 'unpacking must add byte i shifted left by 8i over the first nbytes bytes', fn=f)
     f = lib.fn('bytes::pack_uint')
     if f is not None:
